@@ -39,9 +39,9 @@ CHECKS = {
  'C10': ('differential fuzzing: the same Hypothesis-generated API program executed by two persistent workers (C, PURE_PYTHON), traces compared entry by entry',
          'Differential search over generated programs; no expectation table. Exploration.',
          'Vocabulary = union of the other checks\' vocabularies; out-of-contract garbage arguments not generated.', '3/C10'),
- 'C11': ('fault/schedule injection: generated + enumerated matrix of callback points x actions, opcode-boundary preemption enumerated over every boundary, thread stress (plain and ASan build)',
-         'Fault enumeration over every call-out point of the lookup code and every bytecode boundary of zope.interface\'s Python frames for two operations in flight; free-running schedules only sampled.',
-         'GIL build: thread switches happen only at bytecode boundaries; three or more operations in flight only sampled.', '3/C11'),
+ 'C11': ('fault/schedule injection with Hypothesis-generated registry contents: (1) every callback point out of a lookup (lazy required, overridden _uncached_*, __providedBy__/__provides__/__conform__ descriptors, factory/subscriber, _generation property) x generated action (mutation of any kind, nested lookup, raise) with an ownership audit of the cache containers (gc.get_referents + sys.getrefcount) and a never-interrupted twin registry as oracle; (2) opcode-boundary preemption: X under sys.settrace per-opcode events, complete operation Y run inline at event k, k enumerated; (3) reference-count / allocated-block deltas over repeated calls; (4) thread stress with a mutation-epoch oracle, plain and AddressSanitizer builds',
+         'Fault enumeration: every call-out point of the lookup code crossed with generated mutations, and every bytecode boundary of zope.interface\'s own Python frames for two operations in flight (exhaustive over k in the thorough tier, evenly sampled in the quick tier); free-running schedules with three or more operations in flight are only sampled by the thread stress.',
+         'GIL build: thread switches happen only at bytecode boundaries; the ownership audit keeps containers alive and reads reference counts instead of waiting for a crash (the ASan campaign of the thorough tier runs without it); rebuild() is an interrupting action only.', '3/C11'),
  'C12': ('exhaustive pairs/triples over a curated name/module set + Hypothesis-generated collections, cross-process (hash seeds x implementations) sort comparison',
          'Complete enumeration of a curated finite set plus generated strings; cross-process determinism by comparing 6 workers. Exploration with exhaustive partition.',
          'Names containing spaces are outside the domain (reinterpreted as doc strings).', '3/C12'),
